@@ -227,12 +227,21 @@ static inline struct cmb_process *cmb_process_current(void)
  * @return Whatever signal value is passed by whatever process causing this one
  *         to resume again, possibly itself by setting a timer before calling.
  */
+extern void cmi_process_withdraw_resume(struct cmb_process *pp);
+
 static inline int64_t cmb_process_yield(void)
 {
-    const struct cmb_process *pp = (struct cmb_process *)cmi_coroutine_current();
+    struct cmb_process *pp = (struct cmb_process *)cmi_coroutine_current();
     cmb_assert_release(pp != (struct cmb_process *)cmi_coroutine_main());
 
     const int64_t sig = (int64_t)cmi_coroutine_yield(NULL);
+
+    /*
+     * If something else (e.g., a timer) got here first in the same instant as a
+     * cmb_process_resume() aimed at this yield, that resume event is still
+     * pending. It belongs to this yield and must not hit some later call.
+     */
+    cmi_process_withdraw_resume(pp);
 
     return sig;
 }
